@@ -61,7 +61,7 @@ def small_net(wntr, mode, njunc=2, tank=True):
 class C08(Check):
     pid = "C08"
     level = "proof"
-    prop_modules = ["WntrModel.Props.C08"]
+    prop_modules = ["WntrModel.Props.C08", "WntrModel.Props.C08Window"]
     manifest = dict(
         category="proof",
         text="Lean theorems over definitions regenerated from the current source on every run (m.leak_con[n], m.mass_balance[j], "
@@ -73,9 +73,12 @@ class C08(Check):
         "demand model; remove_leak leaves no leak, no status, no control after ANY history. Real residuals and add/remove_leak "
         "histories are compared with the Lean driver; the activation window and reported values are checked on real simulations.",
         design_ref="DESIGN.md §5 C08",
-        note="modelled, not verified: the activation window ('active exactly from start_time until end_time', on/off grid) depends on the "
-        "time-control scheduler (C04's model); here it is an oracle on REAL WNTRSimulator runs (every reported step, report_timestep 'ALL' "
-        "and fixed, junction+tank leaks, DD/PDD, removal between two runs), not a theorem. Real-number semantics of the rows (pow = "
+        note="the activation window is a theorem on the scheduler model of C04 (Props/C08Window.lean: leak_window -- at every reported time the "
+        "leak status is on iff start <= t and not start <= end <= t, for any number of leaks on distinct nodes, any steps, start/end on or off the grid, "
+        "also inside one hydraulic step; leak_instants_accepted -- start and end are solved times; end < start and end = start stated); the two controls "
+        "add_leak registers are diffed against the model's Leak.ctls and the real timeline against runSim by C04's correspondence run "
+        "(harness/props/c04.py _leak_controls_corr); in addition it is an oracle on REAL WNTRSimulator runs here (every reported step, report_timestep 'ALL' "
+        "and fixed, junction+tank leaks, DD/PDD, removal between two runs). Real-number semantics of the rows (pow = "
         "Real.rpow, 2*9.81 and sqrt(2*9.81) are the doubles the code uses: within 1e-14 / 1e-15 relative, theorem twoG_is_2g); "
         "Newton solve and IEEE rounding only exercised. The LeakState machine is hand-written and tied by correspondence.",
         technique="Lean 4 proof over translator-regenerated constraint rows and spline code + differential runs (residuals, add/remove_leak state machine) + oracle on real simulations",
@@ -89,7 +92,7 @@ class C08(Check):
     trusted_base = [
         "translator harness/translate/rows_c07c08.py (amldump reflection + symbolic execution of leak_poly_coeffs_param.build, cubic_spline)",
         "Real.rpow / Real.sqrt as the meaning of aml `**0.5`",
-        "the activation window is an oracle on real runs, not a theorem (scheduler modelled under C04)",
+        "the activation window theorem (Props/C08Window) is over the hand-written scheduler model Model/Sched.lean, tied to the code by C04's differential runs",
     ]
     assumptions = ["simulation oracle judges converged steps only; tolerance 2e-6 m3/s = the Newton stopping bound on the leak row"]
 
